@@ -1,7 +1,7 @@
 (* C14 property theorems.  Nothing but statements closed by `exact`, a pin, and Print Assumptions.
    The driver parses this file's output. *)
 From ZV.Common Require Import Base.
-From ZV.C14 Require Import Model ProofsMem ProofsCodec ProofsCrc ProofsUtf8.
+From ZV.C14 Require Import Model ProofsMem ProofsCodec ProofsCrc ProofsUtf8 ProofsBits.
 Open Scope N_scope.
 
 Definition bytes (l : list N) : Prop := Forall (fun b => b < 256) l.
@@ -107,6 +107,31 @@ Example utf8_rejects_malformed :
   utf8_valid (utf8_encode [0; 127; 128; 2047; 2048; 55295; 57344; 65535; 65536; 1114111]) = true /\
   Forall is_scalar [0; 127; 128; 2047; 2048; 55295; 57344; 65535; 65536; 1114111].
 Proof. repeat split; try (vm_compute; reflexivity). repeat constructor; unfold is_scalar; lia. Qed.
+
+
+(* select-in-word (select_bit64_software behind BitOps::select_bit64): the answer is a set bit of the word
+   with exactly k set bits below it, and there is an answer whenever the word has more than k set bits *)
+Theorem select_in_word_spec : forall x k r, select64 x k = Some r ->
+  r < 64 /\ N.testbit x r = true /\ popcount_spec (N.to_nat r) x = k.
+Proof. exact select64_spec. Qed.
+Print Assumptions select_in_word_spec.
+
+Theorem select_in_word_total : forall x k, k < popcount_spec 64 x -> exists r, select64 x k = Some r.
+Proof. exact select64_some. Qed.
+Print Assumptions select_in_word_total.
+
+(* bit reversal: bit j of the result is bit 63-j of the argument; reversing twice is the identity on u64 *)
+Theorem bit_reverse_spec : forall x j,
+  N.testbit (reverse_bits64 x) j = if j <? 64 then N.testbit x (63 - j) else false.
+Proof. exact reverse_bits64_spec. Qed.
+Print Assumptions bit_reverse_spec.
+
+Theorem bit_reverse_involutive : forall x, x < W64 -> reverse_bits64 (reverse_bits64 x) = x.
+Proof. exact reverse_bits64_involutive. Qed.
+Print Assumptions bit_reverse_involutive.
+
+Example select_inhabited : select64 (2 ^ 63 + 2 ^ 5 + 1) 2 = Some 63 /\ reverse_bits64 1 = 2 ^ 63.
+Proof. split; vm_compute; reflexivity. Qed.
 
 (* hypotheses are inhabited by non-trivial values *)
 Example bytes_inhabited : bytes [0; 127; 128; 255] /\ simd_memchr 16 (repeat 7 40 ++ [200]) 200 = Some 40%nat
